@@ -21,6 +21,7 @@ PROPS["C01"] = dict(
     assumptions=MODEL,
     stages=[
         S("small-asan", "func", ["--fam", "mul"], (3000, 420), (60000, 1400)),
+        S("small-asan", "func", ["--fam", "mul", "--policy", "win"], (800, 420), (15000, 1000)),
         S("host-asan", "func", ["--fam", "mul"], (1200, 500), (30000, 2100)),
         S("small-nosse-ts-asan", "func", ["--fam", "mul"], (800, 300), (20000, 1000)),
         S("small-gomp-asan", "func", ["--fam", "mul"], (600, 400), (20000, 1300), env={"OMP_NUM_THREADS": "3"}),
@@ -30,7 +31,9 @@ PROPS["C01"] = dict(
 )
 
 def FUNC(fam, q_small, t_small, q_host=None, t_host=None, q_ts=None, t_ts=None, extra=None):
-    st = [S("small-asan", "func", ["--fam", fam], q_small, t_small)]
+    st = [S("small-asan", "func", ["--fam", fam], q_small, t_small),
+          # the same oracle with operands that are windows into larger matrices (views are matrices too; C09 owns the full placement study)
+          S("small-asan", "func", ["--fam", fam, "--policy", "win"], (max(300, q_small[0] // 4), q_small[1]), (t_small[0] // 4, t_small[1]))]
     if q_host:
         st.append(S("host-asan", "func", ["--fam", fam], q_host, t_host))
     if q_ts:
@@ -105,8 +108,7 @@ PROPS["C17"] = dict(
          "zero-tail matrices, pivot search starts incl. last word/last 64 columns); oracle: model predicates; distinct = (build, observer, content class, shape class); "
          "non-trivial = inputs differ in exactly one bit / region's first one is placed by the generator",
     assumptions=MODEL,
-    stages=FUNC("obs", (24000, 300), (600000, 700), (4500, 300), (80000, 1200), (4500, 200), (40000, 400),
-                extra=[S("small-asan", "func", ["--fam", "obs", "--policy", "win"], (6000, 200), (150000, 500))]),
+    stages=FUNC("obs", (24000, 300), (600000, 700), (4500, 300), (80000, 1200), (4500, 200), (40000, 400)),
 )
 PROPS["C08"] = dict(
     level="exploration",
